@@ -23,8 +23,9 @@ EXTENDS NetSimplexOps, TLC, Json
 
 CONSTANTS NN, MM, Thoroughness, Parallel     \* Parallel: allow parallel edges
 
-VARIABLES es, st
-vars == <<es, st>>
+VARIABLES pairs, st
+vars == <<pairs, st>>
+es == MkAdj(Cardinality(IF pairs = <<>> THEN {} ELSE {pairs[i][1] : i \in DOMAIN pairs} \cup {pairs[i][2] : i \in DOMAIN pairs}), pairs)
 
 NodesOf(s) == IF s = <<>> THEN {} ELSE {s[i][1] : i \in DOMAIN s} \cup {s[i][2] : i \in DOMAIN s}
 Seen(s) == Cardinality(NodesOf(s))
@@ -32,42 +33,42 @@ Seen(s) == Cardinality(NodesOf(s))
 RECURSIVE Reach(_, _)
 Reach(s, S) == LET T == S \cup {s[i][2] : i \in {j \in DOMAIN s : s[j][1] \in S}} IN IF T = S THEN S ELSE Reach(s, T)
 
-Init == es = <<>> /\ st = [phase |-> "build"]
+Init == pairs = <<>> /\ st = [phase |-> "build"]
 \* canonical (first-appearance order), connected at every step, acyclic, optionally without parallel edges
-AddEdge == /\ st.phase = "build" /\ Len(es) < MM
+AddEdge == /\ st.phase = "build" /\ Len(pairs) < MM
            /\ \E u, v \in 1..NN :
-                 LET k == Seen(es) IN
+                 LET k == Seen(pairs) IN
                  /\ u # v
-                 /\ IF es = <<>> THEN u = 1 /\ v = 2
+                 /\ IF pairs = <<>> THEN u = 1 /\ v = 2
                     ELSE \/ (u <= k /\ v <= k)
                          \/ (u <= k /\ v = k + 1) \/ (u = k + 1 /\ v <= k)
-                 /\ u \notin Reach(es, {v})
-                 /\ (Parallel \/ \A i \in DOMAIN es : es[i] # <<u, v>>)
-                 /\ es' = Append(es, <<u, v>>)
+                 /\ u \notin Reach(pairs, {v})
+                 /\ (Parallel \/ \A i \in DOMAIN pairs : pairs[i] # <<u, v>>)
+                 /\ pairs' = Append(pairs, <<u, v>>)
            /\ UNCHANGED st
-MaxIter == Thoroughness * (CHOOSE k \in 0..NN : k * k <= Seen(es) /\ (k + 1) * (k + 1) > Seen(es))
-Start == /\ st.phase = "build" /\ Len(es) >= 1
-         /\ st' = InitState(es, Seen(es)) /\ UNCHANGED es
+MaxIter == Thoroughness * (CHOOSE k \in 0..NN : k * k <= Seen(pairs) /\ (k + 1) * (k + 1) > Seen(pairs))
+Start == /\ st.phase = "build" /\ Len(pairs) >= 1
+         /\ st' = InitState(es, Seen(pairs)) /\ UNCHANGED pairs
 Run == /\ st.phase \in {"tree", "pivot", "balance"}
-       /\ st' = Step(es, Seen(es), st, MaxIter) /\ UNCHANGED es
+       /\ st' = Step(es, Seen(pairs), st, MaxIter) /\ UNCHANGED pairs
 Next == AddEdge \/ Start \/ Run
 Spec == Init /\ [][Next]_vars
 
 Running == st.phase \in {"tree", "pivot", "balance", "done"}
 FeasibleInv == Running => Feasible(es, st.rank)
-TreeIsSpanning == st.phase = "pivot" => IsSpanningTree(es, Seen(es), st.tree)
+TreeIsSpanning == st.phase = "pivot" => IsSpanningTree(es, Seen(pairs), st.tree)
 CutValuesRight == st.phase = "pivot" => \A e \in st.tree : st.cut[e] = CutOf(es, e, st.tree, st.lim, st.low)
 NoPanic == st.phase # "panic_no_incident_edge"
 \* brute-force optimum over all rank functions
-MinTotal == LET n == Seen(es) IN
+MinTotal == LET n == Seen(pairs) IN
             Min({TotalLen(es, r) : r \in {f \in [1..n -> 0..(n - 1)] : Feasible(es, f)}})
 Optimal == (st.phase = "done" /\ ~st.capped) => TotalLen(es, st.rank) = MinTotal
 NotStuck == Running => ~st.stuck
-Contiguous == st.phase = "done" => LET used == {st.rank[n] : n \in 1..Seen(es)} IN used = 0..Max(used)
+Contiguous == st.phase = "done" => LET used == {st.rank[n] : n \in 1..Seen(pairs)} IN used = 0..Max(used)
 ObjectiveNeverIncreases == [][(st.phase = "pivot" /\ st'.phase = "pivot") => TotalLen(es, st'.rank) <= TotalLen(es, st.rank)]_vars
 
 \* goal predicates (reached = the bounded model exercises the coincidence)
 Goal_SecondGrowthRound == ~(st.phase = "tree" /\ st.tree # {})                       \* D5 needs a second round
 Goal_SecondPivot == ~(st.phase = "pivot" /\ st.iter >= 2)                            \* D6 needs a second pivot
-Goal_BalanceMovesNode == ~(st.phase = "done" /\ \E n \in 1..Seen(es) : Len(In(es, n)) = Len(Out(es, n)) /\ Len(In(es, n)) > 0)
+Goal_BalanceMovesNode == ~(st.phase = "done" /\ \E n \in 1..Seen(pairs) : Len(In(es, n)) = Len(Out(es, n)) /\ Len(In(es, n)) > 0)
 =============================================================================
